@@ -45,6 +45,9 @@ pub struct WorkerResult {
     pub ctors: BTreeMap<String, u64>,
     pub fault_unfired: u64,
     pub stopped_runs: u64,
+    /// a panic of the harness's own code (never a verdict about the code under test)
+    #[serde(default)]
+    pub harness_panic: Option<String>,
 }
 
 #[derive(Deserialize, Clone, Debug)]
@@ -393,7 +396,15 @@ pub fn worker_main(args: &[String]) -> i32 {
     let status = std::fs::OpenOptions::new().create(true).write(true).truncate(true).open(prefix.with_extension("status")).expect("status file");
     for idx in from..to {
         let _ = status.write_at(&idx.to_le_bytes(), 0);
-        w.unit(idx);
+        let r = std::panic::catch_unwind(std::panic::AssertUnwindSafe(|| w.unit(idx)));
+        if let Err(e) = r {
+            let msg = e.downcast_ref::<String>().cloned().or_else(|| e.downcast_ref::<&str>().map(|s| s.to_string())).unwrap_or_else(|| "non-string panic payload".into());
+            if w.res.harness_panic.is_none() {
+                w.res.harness_panic = Some(format!("run index {}: {}", idx, msg));
+            }
+            crate::stubs::ctx_disable();
+            crate::alloc::set_tracking(false);
+        }
         w.res.units += 1;
         if w.digests.len() > 4_000_000 {
             w.digests.sort_unstable();
@@ -663,6 +674,10 @@ pub fn check_main(prop: &str, tier: &str) -> i32 {
                 for (k, v) in r.ctors {
                     *total.ctors.entry(k).or_insert(0) += v;
                 }
+                if let Some(h) = r.harness_panic {
+                    eprintln!("harness error: the simulator's own code panicked at {} (LRUSIM_VERBOSE_PANICS=1 shows where)", h);
+                    harness_failed = true;
+                }
                 total.other_property_violations += r.other_property_violations;
                 total.leaks_in_fault_runs += r.leaks_in_fault_runs;
                 total.fault_unfired += r.fault_unfired;
@@ -686,6 +701,9 @@ pub fn check_main(prop: &str, tier: &str) -> i32 {
     digests.dedup();
     states.sort_unstable();
     states.dedup();
+    if harness_failed {
+        return 2;
+    }
     if missing as usize > dead.len() {
         eprintln!("harness error: {} workers produced no result without dying", missing);
         return 2;
@@ -841,7 +859,7 @@ pub fn check_main(prop: &str, tier: &str) -> i32 {
             "C16" | "C17" => 16,
             _ => 48,
         };
-        let m = crate::sanitize::miri_phase(prop, "quick", verif_seed, miri_units, ncpu, Duration::from_secs(240));
+        let m = crate::sanitize::miri_phase(prop, "quick", verif_seed, miri_units, ncpu, Duration::from_secs(150));
         for (class, msg, path) in &m.violations {
             if confirmed.iter().any(|c| &c.class == class) {
                 let _ = std::fs::remove_file(path);
